@@ -32,6 +32,15 @@ def main():
                   env)
     warnings.filterwarnings('ignore')
     sys.path.insert(0, VERIF)
+    try:
+        # a garbage length taken for a frame size must end in a MemoryError
+        # inside the code under test (in workers, while shrinking and in a
+        # replay alike), not in the machine running out of memory
+        import resource
+        lim = int(os.environ.get('VERIF_WORKER_AS_LIMIT', 3 << 30))
+        resource.setrlimit(resource.RLIMIT_AS, (lim, lim))
+    except Exception:
+        pass
     from sim import seams
     from sim.sched import HarnessError
     try:
